@@ -54,6 +54,7 @@ func (s *sessionMetadatasState) mergeSessions(sessions []*api.SessionMetadatas) 
 func (s *sessionMetadatasState) dump(event *api.StateBroadcastEvent) {
 	sessions := s.All()
 	for _, session := range sessions {
+		session := session // do not alias the loop variable
 		event.SessionMetadatas = append(event.SessionMetadatas, &session)
 	}
 }
